@@ -631,6 +631,34 @@ class Item:
         self._log('R13', 'for loop #%d in %s -> loop/next desugaring' % (ordinal, fn_name))
         return self
 
+    def r17_cow(self):
+        """`Cow<'_, str>` erased to its owned form: the type becomes String, Cow::Owned(e) -> e, Cow::Borrowed(e) / e.into() ->
+        e.vx_owned() (a stub returning a String with the same characters).  Borrowing vs owning is not observable in the value."""
+        self._no_splice_yet()
+        t = self.text
+        n = 0
+        for rx, rep in [(r"Cow<'\w+, str>", 'String'), (r'\bCow::Owned\(', '('), (r'\bCow::Borrowed\(([^()]*)\)', r'(\1).vx_owned()'),
+                        (r'\.into\(\)', '.vx_owned()')]:
+            t, k = re.subn(rx, rep, t)
+            n += k
+        self.text = t
+        self._log('R17', 'Cow<str> erased to owned String (%d rewrites)' % n)
+        return self
+
+    def twin(self, fn_name, subst=(), suffix='__twin'):
+        """R18: the spec twin of a pure predicate: `pub open spec fn NAME__twin(..) -> T { <the same body text> }`, with exec-only
+        std calls in the body replaced by their spec functions (subst).  Returned as text; the exec fn then ensures r == twin."""
+        b, o, e = fn_span(self.text, fn_name)
+        hdr = self.text[b:o]
+        m = re.search(r'fn\s+%s\s*(\([^)]*\))\s*->\s*([^{]+?)\s*$' % re.escape(fn_name), hdr, re.S)
+        if not m:
+            raise ExtractError('%s: R18 cannot read the signature of %s' % (self.name, fn_name))
+        body = self.text[o:e]
+        for rx, rep in subst:
+            body = re.sub(rx, rep, body)
+        self._log('R18', 'spec twin %s%s generated from the body of %s' % (fn_name, suffix, fn_name))
+        return 'pub open spec fn %s%s%s -> %s %s\n' % (fn_name, suffix, m.group(1), m.group(2), body)
+
     def r16(self, fn_name, ordinal, suffix=None, optional=False):
         """`for x in &mut V { B }` -> counted `while` over V's indices with every `x.` written `V[k].`.
         Sound because B can reach V only through x while the borrow lasts (so V's length is fixed); refused when x is used
